@@ -3,6 +3,7 @@ package main
 
 import (
 	"context"
+	"errors"
 	"fmt"
 	"math"
 	"strings"
@@ -506,6 +507,59 @@ func warm() *mc.Scenario {
 	}}
 }
 
+// calleeShapes: the reflective AsyncCall accepts any func(ctx, A) (R, E) whose E implements error; for
+// every shape - interface and concrete (pointer, nil-able) error types, value and pointer arguments and
+// results - a successful call must hand the caller its value and a nil error, a failing one its error.
+type opError struct{ code int }
+
+func (e *opError) Error() string { return fmt.Sprint("op error ", e.code) }
+
+type sliceErr []string
+
+func (e sliceErr) Error() string { return fmt.Sprint([]string(e)) }
+
+func calleeShapesScenario() *mc.Scenario {
+	return &mc.Scenario{Name: "runner/AsyncCall/callee-shapes", PB: [2]int{0, 0}, FB: [2]int{-1, -1}, Main: func(w *mc.World) {
+		wg := &vsync.WaitGroup{}
+		rq := async.NewRunnerQ(async.WithQSize(8), async.WithWaitGroup(wg))
+		rq.Run()
+		type tc struct {
+			name    string
+			fn      interface{}
+			arg     interface{}
+			want    string
+			wantErr bool
+		}
+		seven := 7
+		cases := []tc{
+			{"(int, error) ok", func(c context.Context, a int) (int, error) { return a + 1, nil }, 1, "2", false},
+			{"(int, error) fails", func(c context.Context, a int) (int, error) { return 0, errors.New("boom") }, 1, "0", true},
+			{"(int, *opError) ok with a nil *opError", func(c context.Context, a int) (int, *opError) { return a + 1, nil }, 1, "2", false},
+			{"(int, *opError) fails", func(c context.Context, a int) (int, *opError) { return 0, &opError{3} }, 1, "0", true},
+			{"(string, sliceErr) ok with a nil slice error", func(c context.Context, a string) (string, sliceErr) { return a + "!", nil }, "x", "x!", false},
+			{"(string, sliceErr) fails", func(c context.Context, a string) (string, sliceErr) { return "", sliceErr{"bad"} }, "x", "", true},
+			{"(*int, error) ok with a pointer argument and result", func(c context.Context, a *int) (*int, error) { return a, nil }, &seven, "ptr", false},
+			{"(interface{}, error) ok with a nil result", func(c context.Context, a int) (interface{}, error) { return nil, nil }, 1, "<nil>", false},
+		}
+		for _, t := range cases {
+			res, err := rq.AsyncCall(t.fn, vctx.New(), t.arg)
+			got := fmt.Sprint(res)
+			if p, ok := res.(*int); ok && p == &seven {
+				got = "ptr"
+			}
+			if (err != nil) != t.wantErr {
+				w.Failf("AsyncCall of a callee shaped %s: the caller received err=%v (%T), want failure=%v", t.name, err, err, t.wantErr)
+			}
+			if !t.wantErr && got != t.want {
+				w.Failf("AsyncCall of a callee shaped %s: the caller received %s, want %s", t.name, got, t.want)
+			}
+		}
+		rq.Stop()
+		rq.WaitStop()
+		wg.Wait()
+	}}
+}
+
 // optionsFamily: options given to one executor do not reach the next one (all ordered pairs of option
 // sets through pipe.GetOption, and a default MultiLine built after configured ones)
 func optionsFamily(c *seq.Ctx) {
@@ -554,6 +608,6 @@ func main() {
 		seq.RunFamily(r, seq.Family{Name: "lane-index", Run: routing})
 		seq.RunFamily(r, seq.Family{Name: "executor-options", Run: optionsFamily})
 	}
-	scs := append(scenarios(), minIntScenario(), reuseScenario(2), reuseScenario(5), reuseScenario(-4))
+	scs := append(scenarios(), minIntScenario(), reuseScenario(2), reuseScenario(5), reuseScenario(-4), calleeShapesScenario())
 	mc.Main(r, scs)
 }
